@@ -1075,8 +1075,11 @@ def op_oriented(ctx, rng, old):
         signs_own.append(1 if s > 0 else (-1 if s < 0 else 0))
     info = {"op": op, "cls": old.cls, "ncells": old.nt, "negative": int(sum(1 for s in signs_own if s < 0))}
     ori = np.asarray(m.orientation())
-    ctx.check("orientation-positive", ori.shape == (old.nt,) and ori.tolist() == signs_own,
-              mech=f"orientation:sign:{old.kind}{old.order}", **info)
+    # (pitfall: on a curved second-order cell the sign of the Jacobian at the reference origin is not the sign of
+    # the vertex skeleton; the exact sign oracle is used for first-order cells only)
+    if old.order == 1:
+        ctx.check("orientation-positive", ori.shape == (old.nt,) and ori.tolist() == signs_own,
+                  mech=f"orientation:sign:{old.kind}{old.order}", **info)
     new_mesh = m.oriented()
     ctx.reached("op:oriented")
     new = St(new_mesh, old.kind, old.order)
@@ -1084,7 +1087,11 @@ def op_oriented(ctx, rng, old):
               mech=f"{op}:coordinates-changed", **info)
     ok = new.nt == old.nt and all(new.ckey(c) == old.ckey(c) for c in range(old.nt))
     ctx.check("cells-are-expected-point-sets", ok, mech=f"{op}:cells:{old.kind}", **info)
-    pos = ok and all(simplex_signed(new.ctuple(c)) > 0 for c in range(new.nt))
+    if old.order == 1:
+        pos = ok and all(simplex_signed(new.ctuple(c)) > 0 for c in range(new.nt))
+    else:   # relational: the library's own sign must be positive afterwards, and only flagged cells were touched
+        pos = ok and bool((np.asarray(new_mesh.orientation()) == 1).all()) and \
+            all(new.ctuple(c) == old.ctuple(c) for c in range(old.nt) if ori[c] == 1)
     ctx.check("orientation-positive", pos, mech=f"{op}:negative-cell-left:{old.kind}{old.order}", **info)
     valid = check_valid(ctx, op, new, need_measure=(old.order == 1))
     if ok:
